@@ -1,18 +1,41 @@
-"""Contracts for lib/yaml/emitter.py (C15, C05, C12)."""
+"""Contracts for lib/yaml/emitter.py (C15 formatting options, C05 tag/anchor processing + error class, C12 document boundaries,
+C02 block-scalar hints and style choice).
+
+Ghost output log: the stream object carries g_log, the list of chunks handed to stream.write() so far (appended by the
+assumed contract of stream.write).  "the marker '---' is written" is then a statement about that log.
+"""
+import z3
 from pyvc.spec import contract, fields, define, extern
+from pyvc.z3v import *
+
+E = 'yaml.emitter.Emitter.'
+EERR = 'yaml.emitter.EmitterError'
 
 fields('yaml.emitter.Emitter',
-       stream='any', encoding='opt:str', states='list', state='opt:func', events='list', event='any',
+       stream='stream', encoding='opt:str', states='list', state='opt:func', events='list', event='any',
        indents='list', indent='opt:int', flow_level='int',
        root_context='bool', sequence_context='bool', mapping_context='bool', simple_key_context='bool',
        line='int', column='int', whitespace='bool', indention='bool', open_ended='bool',
        canonical='any', allow_unicode='any', best_indent='int', best_width='int', best_line_break='str',
-       tag_prefixes='opt:dict', prepared_anchor='opt:str', prepared_tag='opt:str', analysis='any', style='opt:str')
+       tag_prefixes='opt:dict', prepared_anchor='opt:str', prepared_tag='opt:str', analysis='opt:obj:yaml.emitter.ScalarAnalysis', style='opt:str')
+fields('yaml.emitter.ScalarAnalysis', scalar='str', empty='bool', multiline='bool', allow_flow_plain='bool', allow_block_plain='bool',
+       allow_single_quoted='bool', allow_double_quoted='bool', allow_block='bool')
+fields('stream', g_log='list')
+
+# ---- the caller's stream: ASSUMED contract (anything may be raised; the chunk is appended to the ghost log)
+extern('stream', 'write', why="the caller's stream: write(chunk) appends the chunk to the ghost output log or raises anything",
+       requires=[], ensures=["seq(self.g_log) == old(seq(self.g_log)) + [args[0]]"], modifies=['self.g_log[]'], raises_any=True)
+extern('stream', 'flush', why="the caller's stream: flush() writes nothing", requires=[], ensures=[], modifies=[], raises_any=True)
+
+define('LOG', ['s'], "seq(s.stream.g_log)")
+define('ENC', ['s', 'text'], "(text.encode(s.encoding) if s.encoding else text)")
+define('inv_prep', ['s'], "(s.prepared_anchor is None or len(s.prepared_anchor) > 0) and (s.prepared_tag is None or len(s.prepared_tag) > 0)")
+define('inv_pos', ['s'], "s.column >= 0 and s.line >= 0 and (s.indent is None or s.indent >= 0) and 2 <= s.best_indent and s.best_indent <= 9 and heapobj(s.stream.g_log)")
 
 # ---- C15: the effective formatting parameters are the documented function of the requested ones
-contract('yaml.emitter.Emitter.__init__',
+contract(E + '__init__',
     props=['C15'],
-    params={'indent': 'opt:int', 'width': 'opt:int', 'line_break': 'opt:str'},
+    params={'indent': 'opt:int', 'width': 'opt:int', 'line_break': 'opt:str', 'stream': 'stream'},
     requires=[],
     ensures=[
         "self.best_indent == (indent if (indent is not None and 1 < indent and indent < 10) else 2)",
@@ -27,12 +50,220 @@ contract('yaml.emitter.Emitter.__init__',
         "self.state == func('expect_stream_start')",
         "self.open_ended == False and self.whitespace == True and self.indention == True",
         "self.canonical is canonical and self.allow_unicode is allow_unicode and self.stream is stream",
+        # C11/C12: no tag prefixes before the first document; in particular the class-level default table is not aliased
+        "self.tag_prefixes is None and self.prepared_anchor is None and self.prepared_tag is None and self.analysis is None and self.style is None",
     ],
     labels={0: 'best_indent', 1: 'best_width', 2: 'width-exceeds-two-indents', 3: 'line-break-one-of-three',
             4: 'line-break-honoured', 5: 'indent-2-to-9', 6: 'initial-position', 7: 'empty-stacks',
-            8: 'fresh-stacks', 9: 'initial-state', 10: 'initial-flags', 11: 'options-stored'},
+            8: 'fresh-stacks', 9: 'initial-state', 10: 'initial-flags', 11: 'options-stored', 12: 'nothing-prepared'},
     modifies=['self.' + f for f in ['stream', 'encoding', 'states', 'state', 'events', 'event', 'indents', 'indent',
               'flow_level', 'root_context', 'sequence_context', 'mapping_context', 'simple_key_context', 'line',
               'column', 'whitespace', 'indention', 'open_ended', 'canonical', 'allow_unicode', 'best_indent',
               'best_width', 'best_line_break', 'tag_prefixes', 'prepared_anchor', 'prepared_tag', 'analysis', 'style']],
     raises=[])
+
+OUT = ['self.stream.g_log[]']
+ENCERR = ['UnicodeEncodeError', 'LookupError']     # a caller-chosen codec that cannot encode the text: passes through unchanged
+
+# ---- C15: every byte of output goes through these five; column/line bookkeeping is exact
+contract(E + 'write_indicator', props=['C15', 'C12', 'C05'],
+    params={'indicator': 'str', 'need_whitespace': 'bool', 'whitespace': 'bool', 'indention': 'bool'},
+    requires=["inv_pos(self)"],
+    ensures=["inv_pos(self)",
+             "LOG(self) == old(LOG(self)) + [ENC(self, indicator if (old(self.whitespace) or not need_whitespace) else ' ' + indicator)]",
+             "self.column == old(self.column) + len(indicator) + (0 if (old(self.whitespace) or not need_whitespace) else 1)",
+             "self.whitespace == whitespace and self.indention == (old(self.indention) and indention) and self.open_ended == False",
+             "self.line == old(self.line)"],
+    labels={0: 'inv_pos', 1: 'writes-exactly-the-indicator', 2: 'column-advances-by-what-was-written', 3: 'flags', 4: 'same-line'},
+    modifies=['self.whitespace', 'self.indention', 'self.column', 'self.open_ended'] + OUT, raises=ENCERR, raises_any=True)
+
+contract(E + 'write_line_break', props=['C15', 'C12'],
+    params={'data': 'opt:str'},
+    requires=["inv_pos(self)"],
+    ensures=["inv_pos(self)",
+             # C15: a line break nobody chose explicitly is the requested one
+             "LOG(self) == old(LOG(self)) + [ENC(self, self.best_line_break if data is None else data)]",
+             "self.column == 0 and self.line == old(self.line) + 1 and self.whitespace == True and self.indention == True"],
+    labels={0: 'inv_pos', 1: 'writes-the-effective-line-break', 2: 'new-line-position'},
+    modifies=['self.whitespace', 'self.indention', 'self.column', 'self.line'] + OUT, raises=ENCERR, raises_any=True)
+
+contract(E + 'write_indent', props=['C15', 'C12'],
+    requires=["inv_pos(self)"],
+    ensures=["inv_pos(self)",
+             # C15/C12: afterwards the cursor sits exactly at the current indentation (column 0 for a document marker)
+             "self.column == (0 if self.indent is None else self.indent)",
+             "prefix_of(old(LOG(self)), LOG(self))",
+             "self.line >= old(self.line)"],
+    labels={0: 'inv_pos', 1: 'cursor-at-indentation', 2: 'append-only', 3: 'never-moves-up'},
+    modifies=['self.whitespace', 'self.indention', 'self.column', 'self.line'] + OUT, raises=ENCERR, raises_any=True)
+
+for _n, _fmt, _args in [('write_version_directive', '%%YAML %s', 'version_text'), ('write_tag_directive', '%%TAG %s %s', '(handle_text, prefix_text)')]:
+    contract(E + _n, props=['C15', 'C12'],
+        requires=["inv_pos(self)"],
+        ensures=["inv_pos(self)", "len(LOG(self)) == old(len(LOG(self))) + 2 and prefix_of(old(LOG(self)), LOG(self))",
+                 "LOG(self)[old(len(LOG(self)))] == ENC(self, '%s' %% %s)" % (_fmt, _args),
+                 "self.column == 0 and self.line == old(self.line) + 1"],
+        labels={0: 'inv_pos', 1: 'directive-and-line-break', 2: 'directive-text', 3: 'new-line-position'},
+        modifies=['self.whitespace', 'self.indention', 'self.column', 'self.line'] + OUT, raises=ENCERR, raises_any=True)
+
+contract(E + 'flush_stream', props=['C15', 'C19'], requires=[], ensures=["LOG(self) == old(LOG(self))"], labels={0: 'writes-nothing'}, modifies=[], raises_any=True)
+contract(E + 'write_stream_end', props=['C15', 'C19'], requires=[], ensures=["LOG(self) == old(LOG(self))"], labels={0: 'writes-nothing'}, modifies=[], raises_any=True)
+contract(E + 'write_stream_start', props=['C15'],
+    requires=["heapobj(self.stream.g_log)"],
+    ensures=[
+        # C15: a UTF-16 stream starts with exactly one BOM, any other encoding with none
+        "(self.encoding is not None and self.encoding != '' and self.encoding.startswith('utf-16')) ==> LOG(self) == old(LOG(self)) + ['\\uFEFF'.encode(self.encoding)]",
+        "not (self.encoding is not None and self.encoding != '' and self.encoding.startswith('utf-16')) ==> LOG(self) == old(LOG(self))"],
+    labels={0: 'bom-for-utf-16', 1: 'no-bom-otherwise'}, modifies=OUT, raises=ENCERR, raises_any=True)
+
+contract(E + 'increase_indent', props=['C15'],
+    params={'flow': 'bool', 'indentless': 'bool'},
+    requires=["inv_pos(self)"],
+    ensures=["inv_pos(self)",
+             "seq(self.indents) == old(seq(self.indents)) + [old(self.indent)]",
+             # C15: indentation grows in steps of the effective indent only
+             "old(self.indent) is None ==> self.indent == (self.best_indent if flow else 0)",
+             "old(self.indent) is not None ==> self.indent == old(self.indent) + (0 if indentless else self.best_indent)"],
+    labels={0: 'inv_pos', 1: 'previous-indent-saved', 2: 'first-level', 3: 'one-step-deeper'},
+    modifies=['self.indent', 'self.indents[]'], raises=[])
+
+# ---- C02: block scalar header: indentation indicator exactly when the text starts with a space or a break;
+#      chomping '-' when there is no final break, '+' when the final break is kept, none for a single final break
+BRK = "'\\n\\x85\\u2028\\u2029'"
+SPBRK = "' \\n\\x85\\u2028\\u2029'"
+contract(E + 'determine_block_hints', props=['C02', 'C05'],
+    params={'text': 'str'},
+    requires=["2 <= self.best_indent and self.best_indent <= 9"],
+    result='str',
+    ensures=[
+        "(len(text) > 0 and text[0] in %s) ==> result.startswith(str(self.best_indent))" % SPBRK,
+        "not (len(text) > 0 and text[0] in %s) ==> (result == '' or result == '-' or result == '+')" % SPBRK,
+        "(len(text) > 0 and text[-1] not in %s) ==> result.endswith('-')" % BRK,
+        "(len(text) > 0 and text[-1] in %s and (len(text) == 1 or text[-2] in %s)) ==> result.endswith('+')" % (BRK, BRK),
+        "(len(text) > 1 and text[-1] in %s and text[-2] not in %s) ==> not (result.endswith('+') or result.endswith('-'))" % (BRK, BRK),
+        "len(text) == 0 ==> result == ''",
+    ],
+    labels={0: 'indentation-indicator-when-leading-space-or-break', 1: 'no-indicator-otherwise', 2: 'strip-when-no-final-break',
+            3: 'keep-when-trailing-breaks', 4: 'clip-for-single-final-break', 5: 'empty-text'},
+    modifies=[], raises=[])
+
+# ---- C05: anchors and tags: what was prepared for one node never leaks into the next
+contract(E + 'prepare_anchor', trusted=True, why='character-class loop over the anchor text; only "returns the anchor or raises EmitterError" is used',
+         params={'anchor': 'str'}, result='str', requires=[], ensures=["result == anchor and len(result) > 0"], modifies=[], raises=[EERR])
+contract(E + 'prepare_tag', trusted=True, why='escaping loop over the tag text; only "returns a non-empty text or raises EmitterError" is used',
+         params={'tag': 'str'}, result='str', requires=["self.tag_prefixes is not None"], ensures=["len(result) > 0"], modifies=[], raises=[EERR])
+contract(E + 'analyze_scalar', trusted=True, why='character scan of the scalar; only the shape of the result is used here',
+         params={'scalar': 'str'}, result='obj:yaml.emitter.ScalarAnalysis', requires=[], ensures=["fresh(result) and result.scalar == scalar and result.empty == (len(scalar) == 0)",
+                                                                                                     "result.empty ==> not result.multiline"], modifies=[], raises=[])
+
+define('is_node_event', ['e'], "typeis(e, 'obj:yaml.events.NodeEvent')")
+define('ev_ok', ['e'], "(typeis(e, 'obj:yaml.events.NodeEvent') ==> (e.anchor is None or typeis(e.anchor, 'str'))) and "
+                         "((typeis(e, 'obj:yaml.events.ScalarEvent') or typeis(e, 'obj:yaml.events.CollectionStartEvent')) ==> (as_(e, 'obj:yaml.events.ScalarEvent').tag is None or typeis(as_(e, 'obj:yaml.events.ScalarEvent').tag, 'str'))) and "
+                         "(typeis(e, 'obj:yaml.events.ScalarEvent') ==> (typeis(as_(e, 'obj:yaml.events.ScalarEvent').value, 'str') and typeis(as_(e, 'obj:yaml.events.ScalarEvent').implicit, 'tuple') and len(as_(e, 'obj:yaml.events.ScalarEvent').implicit) == 2 "
+                         "and (as_(e, 'obj:yaml.events.ScalarEvent').style is None or as_(e, 'obj:yaml.events.ScalarEvent').style in ['', chr(39), chr(34), '|', '>'])))")
+
+contract(E + 'process_anchor', props=['C05'],
+    params={'indicator': 'str'},
+    requires=["inv_pos(self)", "is_node_event(self.event)", "ev_ok(self.event)", "inv_prep(self)"],
+    ensures=["inv_pos(self)", "self.prepared_anchor is None",
+             "as_(self.event, 'obj:yaml.events.NodeEvent').anchor is None ==> LOG(self) == old(LOG(self))",
+             "as_(self.event, 'obj:yaml.events.NodeEvent').anchor is not None ==> len(LOG(self)) == old(len(LOG(self))) + 1"],
+    labels={0: 'inv_pos', 1: 'prepared-anchor-consumed', 2: 'no-anchor-no-output', 3: 'anchor-written-once'},
+    modifies=['self.prepared_anchor', 'self.whitespace', 'self.indention', 'self.column', 'self.open_ended'] + OUT, raises=[EERR] + ENCERR, raises_any=True)
+
+contract(E + 'choose_scalar_style', props=['C02', 'C08', 'C05'],
+    requires=["typeis(self.event, 'obj:yaml.events.ScalarEvent')", "ev_ok(self.event)"],
+    result='str',
+    ensures=[
+        "result == '' or result == '\"' or result == \"'\" or result == '|' or result == '>'",
+        # C08/C02: a scalar is written plain only if the event says the tag can be re-derived from the plain text,
+        # no style was asked for, and the analysis allows plain text in the current context
+        "result == '' ==> (as_(self.event, 'obj:yaml.events.ScalarEvent').implicit[0] and not as_(self.event, 'obj:yaml.events.ScalarEvent').style and not self.canonical)",
+        "result == '' ==> ((self.flow_level != 0 and self.analysis.allow_flow_plain) or (self.flow_level == 0 and self.analysis.allow_block_plain))",
+        "result == '' ==> not (self.simple_key_context and (self.analysis.empty or self.analysis.multiline))",
+        "(result == '|' or result == '>') ==> (self.analysis.allow_block and self.flow_level == 0 and not self.simple_key_context and not self.canonical)",
+        "result == \"'\" ==> (self.analysis.allow_single_quoted and not (self.simple_key_context and self.analysis.multiline) and not self.canonical)",
+        "self.analysis is not None",
+    ],
+    labels={0: 'one-of-five-styles', 1: 'plain-needs-implicit-and-no-style-request', 2: 'plain-needs-analysis-permission', 3: 'plain-key-is-single-line-nonempty',
+            4: 'block-style-permission', 5: 'single-quoted-permission', 6: 'analysis-available'},
+    modifies=['self.analysis'], raises=[])
+
+contract(E + 'process_tag', props=['C05', 'C02', 'C08'],
+    requires=["inv_pos(self)", "typeis(self.event, 'obj:yaml.events.ScalarEvent') or typeis(self.event, 'obj:yaml.events.CollectionStartEvent')", "ev_ok(self.event)",
+              "self.tag_prefixes is not None", "inv_prep(self)"],
+    ensures=["inv_pos(self)",
+             # C05: whatever check_simple_key prepared for this node is consumed here, on every path
+             "self.prepared_tag is None",
+             # C02/C08: the tag is left out only when the event says the loader re-derives it for the style that is used
+             "(typeis(self.event, 'obj:yaml.events.ScalarEvent') and LOG(self) == old(LOG(self))) ==> "
+             "((self.style == '' and as_(self.event, 'obj:yaml.events.ScalarEvent').implicit[0]) or (self.style != '' and as_(self.event, 'obj:yaml.events.ScalarEvent').implicit[1]))",
+             "typeis(self.event, 'obj:yaml.events.ScalarEvent') ==> self.style is not None",
+             "len(LOG(self)) <= old(len(LOG(self))) + 1"],
+    labels={0: 'inv_pos', 1: 'prepared-tag-consumed', 2: 'tag-elided-only-when-implicit-for-the-style', 3: 'style-chosen', 4: 'at-most-one-chunk'},
+    modifies=['self.prepared_tag', 'self.style', 'self.analysis', 'self.whitespace', 'self.indention', 'self.column', 'self.open_ended'] + OUT,
+    raises=[EERR] + ENCERR, raises_any=True)
+
+contract(E + 'expect_nothing', props=['C05'], requires=[], ensures=["False"], labels={0: 'always-raises'}, modifies=[], raises=[EERR])
+
+# ---- C12 / C15 / C11: document boundaries
+for _n, _p in [('prepare_version', {'version': 'tuple'}), ('prepare_tag_handle', {'handle': 'str'}), ('prepare_tag_prefix', {'prefix': 'str'})]:
+    contract(E + _n, trusted=True, why='text preparation loop; only "returns a text or raises EmitterError" is used by the document-boundary contracts',
+             params=_p, result='str', requires=[], ensures=[], modifies=[], raises=[EERR])
+
+define('doc_ok', ['e'], "typeis(e, 'obj:yaml.events.DocumentStartEvent') ==> ("
+       "(as_(e, 'obj:yaml.events.DocumentStartEvent').version is None or typeis(as_(e, 'obj:yaml.events.DocumentStartEvent').version, 'tuple')) and "
+       "(as_(e, 'obj:yaml.events.DocumentStartEvent').tags is None or (typeis(as_(e, 'obj:yaml.events.DocumentStartEvent').tags, 'dict') and "
+       "forall_v(k, haskey(as_(e, 'obj:yaml.events.DocumentStartEvent').tags, k) ==> (typeis(k, 'str') and typeis(dget(as_(e, 'obj:yaml.events.DocumentStartEvent').tags, k), 'str'))))))")
+
+contract(E + 'check_empty_document', props=['C12'],
+    requires=["len(self.events) > 0 ==> ev_ok(self.events[0])"], result='bool',
+    ensures=["result ==> (typeis(self.event, 'obj:yaml.events.DocumentStartEvent') and len(self.events) > 0 and typeis(self.events[0], 'obj:yaml.events.ScalarEvent'))"],
+    labels={0: 'only-for-an-empty-plain-root-scalar'}, modifies=[], raises=[])
+
+_WR = ['self.whitespace', 'self.indention', 'self.column', 'self.line', 'self.open_ended'] + OUT
+contract(E + 'expect_document_start', props=['C12', 'C15', 'C11', 'C05'], max_paths=4,
+    params={'first': 'bool'},
+    requires=["inv_pos(self)", "doc_ok(self.event)", "len(self.events) > 0 ==> ev_ok(self.events[0])"],
+    ensures=[
+        "inv_pos(self)",
+        "typeis(self.event, 'obj:yaml.events.DocumentStartEvent') or typeis(self.event, 'obj:yaml.events.StreamEndEvent')",
+        "typeis(self.event, 'obj:yaml.events.DocumentStartEvent') ==> self.state == func('expect_document_root')",
+        "typeis(self.event, 'obj:yaml.events.StreamEndEvent') ==> self.state == func('expect_nothing')",
+        # C11/C12/C15: the tag prefixes of a document are rebuilt from the defaults plus this document's own %TAG lines
+        "typeis(self.event, 'obj:yaml.events.DocumentStartEvent') ==> (fresh(self.tag_prefixes) and haskey(self.tag_prefixes, '!') and haskey(self.tag_prefixes, 'tag:yaml.org,2002:'))",
+        "(typeis(self.event, 'obj:yaml.events.DocumentStartEvent') and not as_(self.event, 'obj:yaml.events.DocumentStartEvent').tags) ==> len(self.tag_prefixes) == 2",
+        # C12/C15: only the first document of a stream may start without the '---' marker, and only when nothing asks for it
+        "(typeis(self.event, 'obj:yaml.events.DocumentStartEvent') and (not first or as_(self.event, 'obj:yaml.events.DocumentStartEvent').explicit or self.canonical "
+        "or as_(self.event, 'obj:yaml.events.DocumentStartEvent').version or as_(self.event, 'obj:yaml.events.DocumentStartEvent').tags)) ==> "
+        "(seq_contains(LOG(self), old(len(LOG(self))), ENC(self, '---')) or seq_contains(LOG(self), old(len(LOG(self))), ENC(self, ' ---')))",
+        "prefix_of(old(LOG(self)), LOG(self))",
+    ],
+    labels={0: 'inv_pos', 1: 'accepts-only-document-start-or-stream-end', 2: 'next-is-the-root-node', 3: 'stream-end-is-final',
+            4: 'tag-prefixes-rebuilt-per-document', 5: 'only-default-prefixes-without-tag-directives', 6: 'document-start-marker-written', 7: 'append-only'},
+    invariants={0: ["inv_pos(self)", "fresh(self.tag_prefixes) and haskey(self.tag_prefixes, '!') and haskey(self.tag_prefixes, 'tag:yaml.org,2002:')",
+                    "prefix_of(old(LOG(self)), LOG(self))", "doc_ok(self.event)", "typeis(self.event, 'obj:yaml.events.DocumentStartEvent')",
+                    "self.state is old(self.state)"]},
+    modifies=_WR + ['self.tag_prefixes', 'self.tag_prefixes[]', 'self.state'], raises=[EERR] + ENCERR, raises_any=True)
+
+contract(E + 'expect_first_document_start', props=['C12', 'C15'],
+    requires=["inv_pos(self)", "doc_ok(self.event)", "len(self.events) > 0 ==> ev_ok(self.events[0])"],
+    ensures=["inv_pos(self)", "typeis(self.event, 'obj:yaml.events.DocumentStartEvent') or typeis(self.event, 'obj:yaml.events.StreamEndEvent')",
+             "prefix_of(old(LOG(self)), LOG(self))"],
+    labels={0: 'inv_pos', 1: 'accepts-only-document-start-or-stream-end', 2: 'append-only'},
+    modifies=_WR + ['self.tag_prefixes', 'self.tag_prefixes[]', 'self.state'], raises=[EERR] + ENCERR, raises_any=True)
+
+contract(E + 'expect_document_end', props=['C12', 'C15'],
+    requires=["inv_pos(self)"],
+    ensures=["inv_pos(self)", "typeis(self.event, 'obj:yaml.events.DocumentEndEvent')", "self.state == func('expect_document_start')",
+             # C15: explicit_end produces the '...' marker
+             "as_(self.event, 'obj:yaml.events.DocumentEndEvent').explicit ==> (seq_contains(LOG(self), old(len(LOG(self))), ENC(self, '...')) or seq_contains(LOG(self), old(len(LOG(self))), ENC(self, ' ...')))",
+             "prefix_of(old(LOG(self)), LOG(self))"],
+    labels={0: 'inv_pos', 1: 'accepts-only-document-end', 2: 'next-document-is-never-first', 3: 'document-end-marker-written', 4: 'append-only'},
+    modifies=_WR + ['self.state'], raises=[EERR] + ENCERR, raises_any=True)
+
+contract(E + 'expect_stream_start', props=['C05', 'C15'],
+    requires=["heapobj(self.stream.g_log)", "typeis(self.event, 'obj:yaml.events.StreamStartEvent') ==> (as_(self.event, 'obj:yaml.events.StreamStartEvent').encoding is None or typeis(as_(self.event, 'obj:yaml.events.StreamStartEvent').encoding, 'str'))"],
+    ensures=["typeis(self.event, 'obj:yaml.events.StreamStartEvent')", "self.state == func('expect_first_document_start')", "prefix_of(old(LOG(self)), LOG(self))"],
+    labels={0: 'accepts-only-stream-start', 1: 'next-is-the-first-document', 2: 'append-only'},
+    modifies=['self.encoding', 'self.state'] + OUT, raises=[EERR] + ENCERR, raises_any=True)
